@@ -261,9 +261,12 @@ def check(prog, res, tier):
         widths = set()
         bases = set()
         keyprefix = set()
+        blocked_b = None
         for p in up.runs.inv:
             if p.outcome != 'loopback':
                 continue
+            if p.unknowns or p.tainted:
+                blocked_b = p.unknowns[0][0] if p.unknowns else str(p.tainted[0])
             src = p.interp.user['unit_args'][0][0].segs[0].src
             from .c08 import src_slices
             h = [e for e in p.events if e.kind == 'loop-head'][-1]
@@ -280,9 +283,11 @@ def check(prog, res, tier):
                         and isinstance(e.data['key'].segs[0], Lit):
                     keyprefix.add(e.data['key'].segs[0].data)
         want = {(Lin.const(4), Lin.const(3))}
-        if widths == want and bases == {10} and keyprefix == {'PDS'}:
+        if blocked_b is not None:
+            ob.verdict, ob.detail = UNDECIDED, f'the decoder walk is not fully interpreted: {blocked_b}'
+        elif widths == want and bases == {10} and keyprefix == {'PDS'}:
             ob.verdict, ob.detail = PROVED, 'decoder slice widths (4, 3), radix 10, key prefix PDS'
-        elif not widths:
+        elif not widths or any(len(w) < 2 for w in widths):
             ob.verdict, ob.detail = UNDECIDED, 'decoder loop not analysed'
         else:
             ob.verdict = REFUTED
